@@ -569,17 +569,29 @@ def generate_policy(args=None):
 
 def _upgrade_policies(policies, default_policies):
     old_policies_keys = list(policies.keys())
+    upgraded = set()
     for section in sorted(default_policies.keys()):
         rule_defaults = default_policies[section]
         for rule_default in rule_defaults:
             if (rule_default.deprecated_rule and
                     rule_default.deprecated_rule.name in old_policies_keys):
-                policies[rule_default.name] = policies.pop(
-                    rule_default.deprecated_rule.name)
+                old_name = rule_default.deprecated_rule.name
+                if old_name == rule_default.name:
+                    continue
+                # A deprecated policy may have been split into several new
+                # ones, so only drop the old name once all are handled.
+                upgraded.add(old_name)
+                if policies[old_name] == 'rule:%s' % rule_default.name:
+                    # Merely the alias suggested by the sample file; the new
+                    # policy keeps its default.
+                    continue
+                policies[rule_default.name] = policies[old_name]
                 LOG.info('The name of policy %(old_name)s has been upgraded to'
-                         '%(new_name)',
-                         {'old_name': rule_default.deprecated_rule.name,
+                         '%(new_name)s',
+                         {'old_name': old_name,
                           'new_name': rule_default.name})
+    for old_name in upgraded:
+        policies.pop(old_name)
 
 
 def upgrade_policy(args=None, conf=None):
